@@ -25,25 +25,25 @@ CHECKS = {
     ),
     "C03": (
         "typestate on parser stack + table/registry agreement",
-        "Placement typestate shared with C01 (rows only under tables, cells only under rows), allowed-tag table consumable by the tokenizer, cookie-kind exhaustiveness across producers and consumers, full-match inclusion of the attribute grammar over the URL-safe alphabet, agreement of the sibling arms of magic_fn, attribute names/values stored as written, || continuing the kind of the row's last cell, derived tag tables computed after the last update of the allowed-tag table, beginning-of-line state counted and reset. Thin: r x c shape, cell content and valueless attributes are not decided.",
+        "Placement typestate shared with C01 (rows only under tables, cells only under rows), allowed-tag table consumable by the tokenizer, cookie-kind exhaustiveness across producers and consumers, full-match inclusion of the attribute grammar over the URL-safe alphabet, agreement of the sibling arms of magic_fn, attribute names/values stored as written, || continuing the kind of the row's last cell, derived tag tables computed after the last update of the allowed-tag table, beginning-of-line state counted and reset. Thin: r x c shape, cell content and valueless attributes are not decided. The kind of the cell opened by || is not decided from the whole parser stack.",
         "As C01.",
         "DESIGN.md §3 C03",
     ),
     "C04": (
         "must-pass-through and def-use on the template expansion path",
-        "Decides seven narrow clauses: automatic newline not bypassed, includable part computed at ingestion, positional values untrimmed / named trimmed / later duplicates win, body pipeline order stored body->preprocess->encode->substitute->expand with the new parent frame, conditional functions trim their results, missing template -> link and undefined parameter -> literal, #switch fall-through flags are latches and every keyed entry reaches the match test, shortcuts in front of the includable-part pipeline are implied by the step patterns (regex inclusion). Thin: equality with MediaWiki output is not decidable statically. The argument map is filled in one pass over the call's arguments in the order written.",
+        "Decides seven narrow clauses: automatic newline not bypassed, includable part computed at ingestion, positional values untrimmed / named trimmed / later duplicates win, body pipeline order stored body->preprocess->encode->substitute->expand with the new parent frame, conditional functions trim their results, missing template -> link and undefined parameter -> literal, #switch fall-through flags are latches and every keyed entry reaches the match test, shortcuts in front of the includable-part pipeline are implied by the step patterns (regex inclusion). Thin: equality with MediaWiki output is not decidable statically. The argument map is filled in one pass over the call's arguments in the order written. Argument names reach the argument map and the lookup in one normal form (white space collapsed and stripped, or an integer index) on every path.",
         "Def-use is intra-procedural over the anchored closures.",
         "DESIGN.md §3 C04",
     ),
     "C05": (
         "may-raise analysis over the parser-function registry + recursion-guard dominance",
-        "For every registered parser function and the expansion closure: constant argument indexes are guarded, numeric conversions are soundly guarded, #expr arithmetic applications are under handlers covering the operator tables' exceptions, data-table subscripts are guarded or present in every shipped data file, tables read by SQL exist, recursion/loop guards dominate the recursive calls with a bounded depth constant, input-sized work is clamped, every call-graph cycle on the expansion path is depth-guarded or an enumerated structural recursion (frame-hungry ones under a RecursionError handler), constructor helpers assign the same context attributes on every path. Does not decide termination in general. The template-loop detector enumerates candidate periods; new recursive groups are accepted only with a size-change argument (every cycle descends into a part of a parameter). The expansion path the recursion guards read is never rebound during a page.",
+        "For every registered parser function and the expansion closure: constant argument indexes are guarded, numeric conversions are soundly guarded, #expr arithmetic applications are under handlers covering the operator tables' exceptions, data-table subscripts are guarded or present in every shipped data file, tables read by SQL exist, recursion/loop guards dominate the recursive calls with a bounded depth constant, input-sized work is clamped, every call-graph cycle on the expansion path is depth-guarded or an enumerated structural recursion (frame-hungry ones under a RecursionError handler), constructor helpers assign the same context attributes on every path. Does not decide termination in general. The template-loop detector enumerates candidate periods; new recursive groups are accepted only with a size-change argument (every cycle descends into a part of a parameter). The expansion path the recursion guards read is never rebound during a page. No negative verdict is returned from inside the enumeration of periods on a content-dependent test.",
         "Frozen exception table for math/builtin callables; network-backed functions excluded by name.",
         "DESIGN.md §3 C05",
     ),
     "C06": (
         "capability reachability on Lua AST + bridge-object kinds on Python AST",
-        "Static object-graph reachability from the module environment: origins of every env key, module cache contents reachable through require, sandbox-defined functions forwarding caller data to denied primitives, loader path confinement, kinds of Python objects handed across the bridge, LuaRuntime options, no missing context attribute (AttributeError.obj would expose the context). Replaces the live object graph by the static one the host hands in.",
+        "Static object-graph reachability from the module environment: origins of every env key, module cache contents reachable through require, sandbox-defined functions forwarding caller data to denied primitives, loader path confinement, kinds of Python objects handed across the bridge, LuaRuntime options, no missing context attribute (AttributeError.obj would expose the context). Replaces the live object graph by the static one the host hands in. The loader's sanitiser is interpreted step by step including str.translate tables (a deletion voids the facts established before it). A Python container converted for Lua without recursive=True holds no live Python container (value kinds from displays, stores, comprehensions and return annotations).",
         "Lua 5.1 preloaded library names and lupa attribute semantics are frozen knowledge; values created by Lua code at run time are outside the static graph.",
         "DESIGN.md §3 C06",
     ),
@@ -55,7 +55,7 @@ CHECKS = {
     ),
     "C08": (
         "cross-language layout agreement + def-use provenance",
-        "Tuple layout (value, is_named) built in make_frame agrees with the indexes read by frame_args_index; provenance of the four frames of reference in call_lua_sandbox, including that preprocess/expandTemplate only return constants, the heading strip-marker form or the result of expansion in the calling page context; named-argument detection and positional numbering agree with the expander; expandTemplate/callParserFunction pass arguments structurally; absence of an argument is tested with `is None`; frame and environment stacks are popped after every invocation. Thin: the metamorphic equivalences themselves are not decided. make_frame fills the argument table in one pass in call order; expandTemplate's vector is the title followed by key=value texts.",
+        "Tuple layout (value, is_named) built in make_frame agrees with the indexes read by frame_args_index; provenance of the four frames of reference in call_lua_sandbox, including that preprocess/expandTemplate only return constants, the heading strip-marker form or the result of expansion in the calling page context; named-argument detection and positional numbering agree with the expander; expandTemplate/callParserFunction pass arguments structurally; absence of an argument is tested with `is None`; frame and environment stacks are popped after every invocation. Thin: the metamorphic equivalences themselves are not decided. make_frame fills the argument table in one pass in call order; expandTemplate's vector is the title followed by key=value texts. The frame methods expand on every call, never from a table of earlier results (shared with C13.R9).",
         "Lua front end resolves locals/upvalues of the shipped sandbox files only.",
         "DESIGN.md §3 C08",
     ),
@@ -67,7 +67,7 @@ CHECKS = {
     ),
     "C10": (
         "SQL fact extraction + flow walk (memo invalidation after writers)",
-        "Memoised readers of table pages are invalidated after every writer on every normal path, the upsert updates every non-key column from excluded.* unconditionally, column lists align with bound tuples and with Page(...) construction, every lookup helper goes through get_page, commits precede close/backup, writer and reader agree on the stored key form, no case-altering call on titles beyond the first letter, the namespace tables are indexed with keys of their own key space (canonical vs local names, checked against the shipped data), objects handed out by the memoised lookup are never modified, writer and reader apply the same normalising operations, every writer of the table maintains the same in-memory mirrors, closing a context deletes no shared file, every memoised function that reaches a SELECT on pages is invalidated by every writer, namespace prefixes are lower-cased when asked, and `_` is replaced before the title meets a prefix test or the lookup. Does not decide the title-spelling matrix. Context attributes filled from looked-up pages are invalidated by every writer of the table.",
+        "Memoised readers of table pages are invalidated after every writer on every normal path, the upsert updates every non-key column from excluded.* unconditionally, column lists align with bound tuples and with Page(...) construction, every lookup helper goes through get_page, commits precede close/backup, writer and reader agree on the stored key form, no case-altering call on titles beyond the first letter, the namespace tables are indexed with keys of their own key space (canonical vs local names, checked against the shipped data), objects handed out by the memoised lookup are never modified, writer and reader apply the same normalising operations, every writer of the table maintains the same in-memory mirrors, closing a context deletes no shared file, every memoised function that reaches a SELECT on pages is invalidated by every writer, namespace prefixes are lower-cased when asked, and `_` is replaced before the title meets a prefix test or the lookup. Does not decide the title-spelling matrix. Context attributes filled from looked-up pages are invalidated by every writer of the table. add_page skips the write only when every upserted column is compared as unchanged.",
         "SQL is recovered from string constants reaching execute/executescript.",
         "DESIGN.md §3 C10",
     ),
@@ -85,7 +85,7 @@ CHECKS = {
     ),
     "C13": (
         "truth-table evaluation of the selection function + writer/reader agreement",
-        "check_template_need_expand evaluated on all consistent valuations against the statement; every exit of the template branch is an expansion, an error element or a re-emission of the call with all its arguments in order, and the re-emitting exits are stack-balanced; hook call discipline; formatter delimiters agree with the encoder's bracket regexes; flags written earlier are visible to the selection function (memo invalidation); re-emitted parser-function calls keep the name as written.",
+        "check_template_need_expand evaluated on all consistent valuations against the statement; every exit of the template branch is an expansion, an error element or a re-emission of the call with all its arguments in order, and the re-emitting exits are stack-balanced; hook call discipline; formatter delimiters agree with the encoder's bracket regexes; flags written earlier are visible to the selection function (memo invalidation); re-emitted parser-function calls keep the name as written. No expansion entry point is memoised (decorator or hand-written result table): hooks see every expanded call.",
         "Character-level identity of re-emitted text is not decided.",
         "DESIGN.md §3 C13",
     ),
@@ -103,25 +103,25 @@ CHECKS = {
     ),
     "C16": (
         "path-sensitive push/pop balance (structured flow walk)",
-        "For every function that pushes or pops the expansion path, on every path to every return and around every loop iteration the net change is zero (closures summarised, snapshot/restore idiom modelled, every except handler around a call that reaches a push treated as a catch boundary that must restore the path); only __init__/start_page assign the path; the five recorders build complete ErrorMessageData records from self and start_page resets the lists; counters incremented and decremented in one function are balanced on every path (package-wide lint with a built-in positive example). Holds for all inputs and option combinations because it is a statement about all syntactic paths.",
+        "For every function that pushes or pops the expansion path, on every path to every return and around every loop iteration the net change is zero (closures summarised, snapshot/restore idiom modelled, every except handler around a call that reaches a push treated as a catch boundary that must restore the path); only __init__/start_page assign the path; the five recorders build complete ErrorMessageData records from self and start_page resets the lists; counters incremented and decremented in one function are balanced on every path (package-wide lint with a built-in positive example). Holds for all inputs and option combinations because it is a statement about all syntactic paths. A handler that swallows an exception from a user hook (which may re-enter expand()) is a catch boundary as well.",
         "User callbacks do not touch expand_stack; exceptions escaping expand()/parse() are outside the property.",
         "DESIGN.md §3 C16",
     ),
     "C17": (
         "dominance on the work-list loop + SQL facts",
-        "Every push onto the analysis work list is dominated by a fresh read, the need_pre_expand skip test and the marking write (termination on cycles); propagation direction of included_map; both redirect UPDATEs present and committed; memo invalidation of the writes; the marking UPDATE selects by key columns only; in-memory mirrors of the marking are maintained by every writer; the lookup finds every stored title. The classifier loop scans get_all_pages restricted by nothing but the namespace and skips no page.",
+        "Every push onto the analysis work list is dominated by a fresh read, the need_pre_expand skip test and the marking write (termination on cycles); propagation direction of included_map; both redirect UPDATEs present and committed; memo invalidation of the writes; the marking UPDATE selects by key columns only; in-memory mirrors of the marking are maintained by every writer; the lookup finds every stored title. The classifier loop scans get_all_pages restricted by nothing but the namespace and skips no page. The redirect-propagation statements carry no filter beyond join, namespace, marked and not-yet-marked.",
         "Exactness of the marked closure is graph-shaped runtime data and is not decided.",
         "DESIGN.md §3 C17",
     ),
     "C18": (
         "table agreement with the documented precedence ladder + mypy comparison-overlap + data cross-check",
-        "The #expr ladder and the table used at each level agree with the documented precedence, left folding; no str/int comparison in registered functions (quick: annotation-driven AST rule; thorough: mypy strict equality); formatnum and formatnum|R are inverse by statement order for every shipped locale, and the locale data is used as loaded. Values of the string functions are not decided. #explode resolves a negative position against a piece count that depends on the limit (information flow). Slice bounds computed from signed arguments are provably non-negative (path-sensitive integer bounds); the name:argument text is only stripped of modifiers before the split.",
+        "The #expr ladder and the table used at each level agree with the documented precedence, left folding; no str/int comparison in registered functions (quick: annotation-driven AST rule; thorough: mypy strict equality); formatnum and formatnum|R are inverse by statement order for every shipped locale, and the locale data is used as loaded. Values of the string functions are not decided. #explode resolves a negative position against a piece count that depends on the limit (information flow). Slice bounds computed from signed arguments are provably non-negative (path-sensitive integer bounds); the name:argument text is only stripped of modifiers before the split. No truthiness default replaces a localisation value that a shipped locale defines as empty on purpose (decided from data/*/localization.json).",
         "Documented precedence table frozen in the checker; values of string functions not decided.",
         "DESIGN.md §3 C18",
     ),
     "C19": (
         "exhaustiveness + writer/reader delimiter agreement + flow walk over emitter arms",
-        "to_wikitext handles every NodeKind; each opening literal it writes is a token that opens that kind in the parser; heading tables are inverse; [[ and ]] are both protected; attribute values are quoted; a parser function keeps its colon whenever it has an argument list; on every path through every emitter the node's content field (children / largs) is written out whenever it may be non-empty; every attribute line the emitter can write is accepted by the table parser (regex inclusion); serialiser counters are balanced; `<tag />` closes the element in the parser; the text between a cell's attributes and its content is the token table_cell_fn splits at; serialised content is written out unaltered. Bare start tags are written only for tags the parser closes by itself (constant folder over the tag table); Optional fields are serialised only when set; content fields the parser fills besides children/largs are written out.",
+        "to_wikitext handles every NodeKind; each opening literal it writes is a token that opens that kind in the parser; heading tables are inverse; [[ and ]] are both protected; attribute values are quoted; a parser function keeps its colon whenever it has an argument list; on every path through every emitter the node's content field (children / largs) is written out whenever it may be non-empty; every attribute line the emitter can write is accepted by the table parser (regex inclusion); serialiser counters are balanced; `<tag />` closes the element in the parser; the text between a cell's attributes and its content is the token table_cell_fn splits at; serialised content is written out unaltered. Bare start tags are written only for tags the parser closes by itself (constant folder over the tag table); Optional fields are serialised only when set; content fields the parser fills besides children/largs are written out. For every tag the emitter writes as `<tag />`, the parser's closing test folds to true with the trailing-slash flag set. Emitters written in the return-per-arm form are read through an accumulator-form normalisation.",
         "Tree equivalence after re-parse is not decided.",
         "DESIGN.md §3 C19",
     ),
